@@ -29,9 +29,10 @@ type simpleExpression struct {
 
 type term struct {
 	// TODO: Add location token?
-	factor1 IEvaluator
-	factor2 IEvaluator
-	opToken *Token
+	negativeSign bool // a minus sign in front of factor1
+	factor1      IEvaluator
+	factor2      IEvaluator
+	opToken      *Token
 }
 
 type power struct {
@@ -238,17 +239,9 @@ func (expr *simpleExpression) Evaluate(ctx *ExecutionContext) (*Value, *Error) {
 	}
 
 	if expr.negativeSign {
-		if result.IsNumber() {
-			switch {
-			case result.IsFloat():
-				result = AsValue(-1 * result.Float())
-			case result.IsInteger():
-				result = AsValue(-1 * result.Integer())
-			default:
-				return nil, ctx.Error("Operation between a number and a non-(float/integer) is not possible", nil)
-			}
-		} else {
-			return nil, ctx.Error("Negative sign on a non-number expression", expr.GetPositionToken())
+		result, err = negativeOf(ctx, result, expr.GetPositionToken())
+		if err != nil {
+			return nil, err
 		}
 	}
 
@@ -284,10 +277,30 @@ func (expr *simpleExpression) Evaluate(ctx *ExecutionContext) (*Value, *Error) {
 	return result, nil
 }
 
+// negativeOf applies a minus sign to a number.
+func negativeOf(ctx *ExecutionContext, v *Value, position *Token) (*Value, *Error) {
+	if !v.IsNumber() {
+		return nil, ctx.Error("Negative sign on a non-number expression", position)
+	}
+	switch {
+	case v.IsFloat():
+		return AsValue(-1 * v.Float()), nil
+	case v.IsInteger():
+		return AsValue(-1 * v.Integer()), nil
+	}
+	return nil, ctx.Error("Operation between a number and a non-(float/integer) is not possible", nil)
+}
+
 func (expr *term) Evaluate(ctx *ExecutionContext) (*Value, *Error) {
 	f1, err := expr.factor1.Evaluate(ctx)
 	if err != nil {
 		return nil, err
+	}
+	if expr.negativeSign {
+		f1, err = negativeOf(ctx, f1, expr.GetPositionToken())
+		if err != nil {
+			return nil, err
+		}
 	}
 	if expr.factor2 != nil {
 		f2, err := expr.factor2.Evaluate(ctx)
@@ -399,12 +412,15 @@ func (p *Parser) parsePower() (IEvaluator, *Error) {
 	return pw, nil
 }
 
-func (p *Parser) parseTerm() (IEvaluator, *Error) {
+// parseTerm parses factor { * | / | % factor }. negative tells that a minus sign stands
+// in front of the term: it belongs to the first factor (-a * b is (-a) * b), the unary
+// minus binds tighter than * / % and looser than ^.
+func (p *Parser) parseTerm(negative bool) (IEvaluator, *Error) {
 	// (levels of nesting this function adds while it parses a chain of operands)
 	operands := 0
 	defer func() { p.depth -= operands }()
 
-	returnTerm := new(term)
+	returnTerm := &term{negativeSign: negative}
 
 	factor1, err := p.parsePower()
 	if err != nil {
@@ -437,7 +453,7 @@ func (p *Parser) parseTerm() (IEvaluator, *Error) {
 		returnTerm.factor2 = factor2
 	}
 
-	if returnTerm.opToken == nil {
+	if returnTerm.opToken == nil && !returnTerm.negativeSign {
 		// Shortcut for faster evaluation
 		return returnTerm.factor1, nil
 	}
@@ -452,9 +468,10 @@ func (p *Parser) parseSimpleExpression() (IEvaluator, *Error) {
 
 	expr := new(simpleExpression)
 
+	negative := false
 	if sign := p.MatchOne(TokenSymbol, "+", "-"); sign != nil {
 		if sign.Val == "-" {
-			expr.negativeSign = true
+			negative = true
 		}
 	}
 
@@ -462,7 +479,12 @@ func (p *Parser) parseSimpleExpression() (IEvaluator, *Error) {
 		expr.negate = true
 	}
 
-	term1, err := p.parseTerm()
+	// The minus sign belongs to the first factor of the term: -a * b is (-a) * b, which
+	// is not -(a * b) for a zero (the sign of a float zero) and for the smallest int. In
+	// front of a negation it applies to what the negation yields (which is no number).
+	expr.negativeSign = negative && expr.negate
+
+	term1, err := p.parseTerm(negative && !expr.negate)
 	if err != nil {
 		return nil, err
 	}
@@ -484,7 +506,7 @@ func (p *Parser) parseSimpleExpression() (IEvaluator, *Error) {
 		op := p.Current()
 		p.Consume()
 
-		term2, err := p.parseTerm()
+		term2, err := p.parseTerm(false)
 		if err != nil {
 			return nil, err
 		}
